@@ -49,6 +49,7 @@ class Interposer:
         self.ropedir = ropedir
         self.events = []          # recorded: dict(op, name, dst, n)
         self.crash_at = None      # (event index, byte offset) or None
+        self.unwind = False       # True: the interruption propagates as an exception and clean-up code runs
         self.dead = False
         self.count = 0
 
@@ -60,7 +61,7 @@ class Interposer:
 
     def _event(self, op, name, dst="", n=0):
         """returns byte offset to cut at (for writes) or raises Crash"""
-        if self.dead:
+        if self.dead and not self.unwind:
             raise Crash()
         idx = self.count
         self.count += 1
@@ -92,14 +93,14 @@ class Interposer:
                 return r
 
             def flush(self):
-                if not ip.dead:
+                if not ip.dead or ip.unwind:
                     self._f.flush()
 
             def close(self):
                 if self._f.closed:
                     return
                 try:
-                    if not ip.dead:
+                    if not ip.dead or ip.unwind:
                         ip._event("close", self._name)
                 finally:
                     self._f.close()
@@ -123,6 +124,26 @@ class Interposer:
 
         self._saved = {}
         self.pm.open = my_open
+        # code outside rope.base.project (shutil.copyfile, pathlib, tempfile ...) that writes into the rope
+        # folder goes through builtins.open; zero-copy shortcuts are switched off so that bytes pass write()
+        import shutil as _sh
+
+        def builtin_open(path, mode="r", *a, **kw):
+            try:
+                inside = isinstance(path, (str, bytes, os.PathLike)) and \
+                    os.path.dirname(os.path.abspath(os.fspath(path))) == os.path.abspath(ip.ropedir)
+            except Exception:
+                inside = False
+            if inside and any(c in mode for c in "wax+"):
+                name = ip._name(path)
+                ip._event("open", name)
+                return F(real_open(path, mode, *a, **kw), name)
+            return real_open(path, mode, *a, **kw)
+        self._real_builtin_open = real_open
+        builtins.open = builtin_open
+        self._sh_flags = {k: getattr(_sh, k) for k in ("_USE_CP_SENDFILE", "_HAS_FCOPYFILE") if hasattr(_sh, k)}
+        for k in self._sh_flags:
+            setattr(_sh, k, False)
         for fn in ("replace", "rename"):
             real = getattr(os, fn)
             self._saved[fn] = real
@@ -143,6 +164,10 @@ class Interposer:
             setattr(os, fn, wrapped2)
 
     def uninstall(self):
+        import shutil as _sh
+        builtins.open = self._real_builtin_open
+        for k, v in self._sh_flags.items():
+            setattr(_sh, k, v)
         if hasattr(self.pm, "open"):
             try:
                 del self.pm.open
@@ -297,10 +322,17 @@ def scenario(arg):
             points = pts
         outcomes = {"old": 0, "new": 0, "empty": 0, "other": 0}
         tolerant_probe = None
-        for pt in points:
+        runs = [(pt, False) for pt in points]
+        # the same cut delivered as an exception that unwinds the stack (Ctrl-C, SystemExit from a signal
+        # handler, ENOSPC): finally-blocks and context managers of the saving code run afterwards
+        upts = points if not max_points else [pt for k, pt in enumerate(points) if k % 4 == 0 or
+                                             events[pt[0]]["op"] != "write"]
+        runs += [(pt, True) for pt in upts]
+        for pt, unwind in runs:
             restore()
             ip = Interposer(project_mod, ropedir)
             ip.crash_at = pt
+            ip.unwind = unwind
             ip.install()
             try:
                 try:
@@ -318,7 +350,8 @@ def scenario(arg):
             fails, detail = examine(probe, old, new)
             shutil.rmtree(probe)
             if fails:
-                results.append({"point": list(pt), "event": events[pt[0]], "fails": fails, "detail": detail})
+                results.append({"point": list(pt), "event": events[pt[0]], "fails": fails, "detail": detail,
+                                "mode": "unwind" if unwind else "kill"})
         # 3. reader tolerance, measured: truncate the live pickle files of the complete save
         restore()
         p.close()
@@ -337,7 +370,7 @@ def scenario(arg):
                     tolerant = False
                 with open(path, "wb") as f:
                     f.write(data)
-        return {"n": n, "events": events, "live": live, "points": len(points), "total_points": total_points,
+        return {"n": n, "events": events, "live": live, "points": len(runs), "total_points": total_points,
                 "failures": results, "tolerant": tolerant,
                 "had_old": old[0] != [[], []]}
     finally:
@@ -426,7 +459,7 @@ def main(tier):
                 continue
             nfail += 1
             ev = f.get("event", {})
-            key = {"part": "crash", "clauses": sorted(f["fails"]),
+            key = {"part": "crash", "mode": f.get("mode", "kill"), "clauses": sorted(f["fails"]),
                    "cut_in": "%s:%s" % (ev.get("op"), "live" if ev.get("name") in r["live"] else "other")}
             verdict.failure(key, {"property": PROP, "key": key, "scenario": r["n"], "point": f["point"],
                                   "event": ev, "detail": f.get("detail"), "events": r["events"]})
